@@ -34,6 +34,7 @@ type adapter struct {
 	closed  bool
 	calls   int
 	crashAt int  // simulate process death when this many adapter calls have been made (0 = never)
+	hold    func() bool // when set: Acknowledge blocks until it returns true (a slow backend)
 }
 
 func newAdapter(id int, prio bool, faults []Fault) *adapter {
@@ -182,6 +183,9 @@ func (a *adapter) DequeueWithAckId() (any, bool, string) {
 
 func (a *adapter) Acknowledge(ackID string) bool {
 	rt.Yield()
+	if a.hold != nil {
+		rt.WaitUntil("ackhold", a.hold)
+	}
 	a.nAck++
 	e, ok := a.unacked[ackID]
 	if !ok || a.fault("ack", a.nAck) {
